@@ -507,6 +507,16 @@ def check_int(np, oem, ck, case, frac_model):
                      "retrieval_noise": ("r", (K, Sa, Sy, F.vec(case["e_y"])))}
             for fn, (k, args) in margs.items():
                 _xrun(np, ck, frac_model, fn, args, real.get(k), scales[k], shapes[k], case)
+                # counter-model search when a proof is broken: the statement of the identities is
+                # evaluated exactly through the regenerated model
+                if getattr(ck, "build_ok", None) is False and hasattr(frac_model, fn) and len(ck.notes) < 4:
+                    try:
+                        mv = getattr(frac_model, fn)(*args)
+                    except Exception as e:  # noqa: BLE001
+                        mv = f"raises {type(e).__name__}"
+                    if mv != ex[k]:
+                        ck.notes.append(f"counter-model: regenerated {fn} contradicts its defining identity exactly at "
+                                        f"K={case['K']} S_a={case['S_a']} S_y={case['S_y']}")
             if not isinstance(real.get("A"), tuple) and real.get("A") is not None and real["A"].shape == (n, n):
                 # smoothing_error is cross-run on the exact A (integers scaled): use the real A converted exactly
                 Afr = [[F.Fraction(float(a)) for a in row] for row in real["A"].tolist()]
